@@ -489,6 +489,10 @@ def check(ctx):
     with ctx.shared({"C05.R6": ("C06.R10", "the socket asks for a full reload until one has completed: request_session_id is cleared only after the whole "
                                 "response was applied, so an interrupted reload is repeated as a reload (shadow table, swap) and not as an increment")}):
         C05.r6(ctx, retsets)
+    with ctx.shared({"C07.R2": ("C06.R11", "whether a Cache Response starts an atomic reload is decided by last_update != 0 ('this socket holds data'): "
+                                "the timestamp is cleared only where both tables were purged for the socket (or in the constructor), so a "
+                                "socket that still holds records always reloads through the shadow tables")}):
+        C07.r2(ctx, retsets)
     ctx.not_decided("reader-visible states inside user callbacks; equality of the new data set with the cache's set")
 
 
@@ -536,4 +540,7 @@ WITNESSES = [
      "old": "\t\t\tif (spki_table_add_entry(dst, &record) != SPKI_SUCCESS) {\n\t\t\t\tret = SPKI_ERROR;\n\t\t\t\tbreak;\n\t\t\t}", "new": "\t\t\tret = spki_table_add_entry(dst, &record) != SPKI_SUCCESS ? SPKI_ERROR : SPKI_SUCCESS;"},
     {"id": "C06.w15-swap-skips-an-empty-family", "rule": "C06.R2", "file": TP,
      "old": "\ta->ipv4 = b->ipv4;\n", "new": "\tif (b->ipv4)\n\t\ta->ipv4 = b->ipv4;\n"},
+    {"id": "C06.w-timestamp-cleared-on-cache-reset", "rule": "C06.R11", "file": "rtrlib/rtr/rtr.c",
+     "old": "\t\t\trtr_socket->request_session_id = true;\n\t\t\trtr_socket->serial_number = 0;\n\t\t\trtr_change_socket_state(rtr_socket, RTR_RESET);\n\t\t\trtr_purge_outdated_records(rtr_socket);",
+     "new": "\t\t\trtr_socket->request_session_id = true;\n\t\t\trtr_socket->serial_number = 0;\n\t\t\trtr_socket->last_update = 0;\n\t\t\trtr_change_socket_state(rtr_socket, RTR_RESET);\n\t\t\trtr_purge_outdated_records(rtr_socket);"},
 ]
